@@ -185,8 +185,8 @@ M["c15"] = [
       old="        if parent_levels > steps_max:",
       new="        if parent_levels > steps_max + 1:"),
  dict(id="scan-node-null-guard-dropped", file=K, expect="C15-D2c",
-      old="                if ele is not None and scan_node in ele:\n                    eval_val = ele[scan_node]\n                    if (match_value is None\n                        or Searches.search_matches(\n                            PathSearchMethods.GREATER_THAN",
-      new="                if scan_node in ele:\n                    eval_val = ele[scan_node]\n                    if (match_value is None\n                        or Searches.search_matches(\n                            PathSearchMethods.GREATER_THAN"),
+      old="                if (ele is not None and scan_node in ele\n                    and ele[scan_node] is not None\n                ):\n                    eval_val = ele[scan_node]\n                    if (match_value is None\n                        or Searches.search_matches(\n                            PathSearchMethods.GREATER_THAN",
+      new="                if (scan_node in ele\n                    and ele[scan_node] is not None\n                ):\n                    eval_val = ele[scan_node]\n                    if (match_value is None\n                        or Searches.search_matches(\n                            PathSearchMethods.GREATER_THAN"),
  dict(id="dispatcher-branch-dropped-not-implemented", file=P, expect="C15-D1",
       old='''        elif segment_type == PathSegmentTypes.TRAVERSE:
             node_coords = self._get_nodes_by_traversal(
@@ -373,7 +373,9 @@ M["c02"] = [
                             parent=parent,'''),
  dict(id="max-index-of-other-loop", file=K, expect="C02-D1",
       old='''                if isinstance(val, dict):
-                    if val is not None and scan_node in val:
+                    if (val is not None and scan_node in val
+                        and val[scan_node] is not None
+                    ):
                         eval_val = val[scan_node]
                         if (match_value is None
                             or Searches.search_matches(
